@@ -383,7 +383,11 @@ def band(x, m):
     return r
 
 
-def bor(x, y):
+class Unsupported(BaseException):
+    """operation on symbolic values the term layer cannot express (never caught by the code under test)"""
+
+
+def bor(x, y, width=None):
     if x.op == 'const' and y.op == 'const':
         return const(x.a[0] | y.a[0], INT)
     bx, by = pbits(x), pbits(y)
@@ -393,10 +397,12 @@ def bor(x, y):
         return sub(add(x, y), band(x, y.a[0]))
     if x.op == 'const' and x.a[0] >= 0:
         return sub(add(y, x), band(y, x.a[0]))
-    if bx is None or by is None or max(bx, by).bit_length() > 24:
-        raise NotImplementedError('symbolic | symbolic without width')
+    if width is None:
+        if bx is None or by is None or max(bx, by).bit_length() > 32:
+            raise Unsupported('symbolic | symbolic without known width')
+        width = max(bx, by).bit_length()
     r = const(0, INT)
-    for i in range(max(bx, by).bit_length()):
+    for i in range(width):
         p, q = imod(idiv(x, 1 << i), 2), imod(idiv(y, 1 << i), 2)
         bit = ite(lt(const(0, INT), add(p, q)), const(1 << i, INT), const(0, INT))
         r = add(r, bit)
@@ -408,7 +414,7 @@ def bxor(x, y):
         return const(x.a[0] ^ y.a[0], INT)
     bx, by = pbits(x), pbits(y)
     if bx is None or by is None or max(bx, by).bit_length() > 24:
-        raise NotImplementedError('symbolic ^')
+        raise Unsupported('symbolic ^ symbolic without known width')
     r = const(0, INT)
     for i in range(max(bx, by).bit_length()):
         p, q = imod(idiv(x, 1 << i), 2), imod(idiv(y, 1 << i), 2)
